@@ -351,6 +351,7 @@ func lineOnly(s string) string {
 // result depends on all operands (incl. receiver).
 func DependsOn(v ssa.Value, pred func(ssa.Value) bool) bool {
 	seen := map[ssa.Value]bool{}
+	depth := 0
 	var walk func(x ssa.Value) bool
 	walk = func(x ssa.Value) bool {
 		if x == nil || seen[x] {
@@ -360,6 +361,11 @@ func DependsOn(v ssa.Value, pred func(ssa.Value) bool) bool {
 		if pred(x) {
 			return true
 		}
+		if p, ok := x.(*ssa.Parameter); ok {
+			if a, ok := ParamSubst[p]; ok {
+				return walk(a)
+			}
+		}
 		in, ok := x.(ssa.Instruction)
 		if !ok {
 			return false
@@ -367,6 +373,25 @@ func DependsOn(v ssa.Value, pred func(ssa.Value) bool) bool {
 		for _, op := range in.Operands(nil) {
 			if *op != nil && walk(*op) {
 				return true
+			}
+		}
+		// a call of a small helper of the repository: the result also depends on what the helper's returned
+		// values are computed from (its parameters are covered by the arguments visited above)
+		if cl, ok := x.(*ssa.Call); ok && depth < 2 {
+			if h := cl.Call.StaticCallee(); h != nil && h.Pkg != nil && len(h.Blocks) > 0 && len(h.Blocks) <= 12 &&
+				strings.HasPrefix(h.Pkg.Pkg.Path(), "github.com/elastos/Elastos.ELA") && h != cl.Parent() {
+				depth++
+				for _, b := range h.Blocks {
+					if ret, ok := b.Instrs[len(b.Instrs)-1].(*ssa.Return); ok {
+						for _, rv := range ret.Results {
+							if walk(rv) {
+								depth--
+								return true
+							}
+						}
+					}
+				}
+				depth--
 			}
 		}
 		// a buffer filled by the copy builtin depends on the copied source
